@@ -495,7 +495,7 @@ func cmdCheck(args []string) {
 							newViol++
 							exit = 1
 							fmt.Printf("VIOLATION property=%s replay=%s\n", id, f.file)
-							fmt.Printf("  entry=%s case=%d assertion=%q inputs=%v\n", f.run.Entry, f.c, f.v.Tag, prettyInputs(f.v))
+							fmt.Printf("  entry=%s case=%d assertion=%q inputs=%v observations=%v\n", f.run.Entry, f.c, f.v.Tag, prettyInputs(f.v), f.v.Obs)
 						}
 					} else {
 						fail2(fmt.Sprintf("engine/native disagreement: %s case %d tag %q inputs %v not reproduced natively (native failed=%v)",
